@@ -1,6 +1,7 @@
 mod alloc;
 mod bench;
 mod common;
+mod num;
 mod pool;
 mod pure;
 mod stats;
@@ -40,6 +41,7 @@ fn main() {
                 match sc["kind"].as_str().unwrap_or("") {
                     "pool" => common::run_scenario(&sc, &mut out, &mut stats, pool::body),
                     "bench" => common::run_scenario(&sc, &mut out, &mut stats, bench::body),
+                    "num" => num::run(&sc, &mut out, &mut stats),
                     "pure" => pure::run(&sc, &mut out, &mut stats),
                     "stats" => stats::run(&sc, &mut out),
                     "alloc" => common::run_scenario(&sc, &mut out, &mut stats, alloc::body),
